@@ -1,4 +1,5 @@
 import ColaVerif.Lemmas.OpAlgebra
+import ColaVerif.Lemmas.OpDtype
 import ColaVerif.Basic.GInt
 
 /-!
@@ -103,6 +104,19 @@ theorem C02_tower_shape (tw : List Bool) (A : Op R) (hwf : A.wf = true)
       (A.tower tw).cols = (if tw.length % 2 = 0 then A.cols else A.rows) :=
   Op.tower_shape tw A ⟨hwf, hnd, hh⟩ hr
 
+/-- dtype of a tower: `.T` / `.H` never change the dtype — a tower of any height has the dtype
+of `A`, which is the join of `A`'s leaf dtypes (`Op.dtypeSpec`, see `C01_dtype`).  No hypothesis:
+every rule of `cola.fns.transpose` / `adjoint` (double-transpose cancellation, fresh `Dense` /
+`Triangular` / `Sparse`, the SelfAdjoint shortcut, the lazy wrapper) is covered. -/
+theorem C02_tower_dtype (tw : List Bool) (A : Op R) : (A.tower tw).dtype = A.dtypeSpec :=
+  Op.tower_dtype tw A
+
+omit [CommRing R] [StarRing R] [DecidableEq R] in
+/-- the left product `X @ A` has the promoted dtype of operator and operand (the same statement as
+`C01_result_dtype`, `_rmatmat` ends in the same NumPy promotion) -/
+theorem C02_left_product_dtype (A : Op R) (xdt : DType) : A.mmDtype xdt = A.mmDtypeSpec xdt :=
+  Op.mmDtype_eq_spec A xdt
+
 /-! ## involutions -/
 
 /-- `A.T.T` represents `A` again. -/
@@ -195,6 +209,8 @@ end C02
 #print axioms C02.C02_tower
 #print axioms C02.C02_tower_den
 #print axioms C02.C02_tower_shape
+#print axioms C02.C02_tower_dtype
+#print axioms C02.C02_left_product_dtype
 #print axioms C02.C02_TT
 #print axioms C02.C02_HH
 #print axioms C02.C02_shape_clause_needed
